@@ -354,7 +354,7 @@ func (p *Parser) parseSpecs(specs []srcInput, listener *TreeShapeListener) (*sys
 			if v.syslProtoImport != nil {
 				// Merge structs recursively
 				if err := mergo.Merge(listener.module, v.syslProtoImport); err != nil {
-					return nil, err
+					return nil, fmt.Errorf("error merging %s: %w", src.filename, err)
 				}
 			}
 
